@@ -11,7 +11,8 @@ trap cleanup EXIT
 cd "$WT"
 export PYTHONPATH="$WT/src" PYTHONDONTWRITEBYTECODE=1
 /venv/bin/python "$SD/demo.py" >/tmp/vseed-$ID.clean.log 2>&1; CLEAN=$?
-git apply "$SD/patch.diff" || { echo "$ID: PATCH DOES NOT APPLY"; exit 1; }
+PATCH="$SD/patch.diff"; [ -f "$SD/patch_rebased.diff" ] && PATCH="$SD/patch_rebased.diff"
+git apply "$PATCH" || { echo "$ID: PATCH DOES NOT APPLY"; exit 1; }
 FILES=$(git diff --name-only | tr '\n' ' ')
 /venv/bin/python "$SD/demo.py" >/tmp/vseed-$ID.mut.log 2>&1; MUT=$?
 /venv/bin/python -m pytest -q -p no:cacheprovider -x tests >/tmp/vseed-$ID.tests.log 2>&1; T=$?
